@@ -67,6 +67,14 @@ CHECKS = {
                      "bit-precisely for every usize tuple and every f64 multiplier (allocation-free) and every period tuple in 0..=16 (64) (windowed). Display text and accessors are compared natively on a sweep "
                      "incl. 2^31, 2^32, 2^53+1, usize::MAX-1, usize::MAX (formatting is outside both engines).",
                 technique="symbolic execution of rustc MIR into z3 (integers with overflow assertions) + Kani/CBMC harnesses; native confirmation incl. Display", design='4/C11'),
+    'C10': dict(text="Bounded model checking by solver: the generic Next<&T> bodies executed from MIR with a bar whose five getters return five INDEPENDENT symbolic reals: equality with Next<f64> on "
+                     "close / low / high as documented (13 indicators), one-price bars vs the scalar path (FastStochastic, SlowStochastic, TrueRange, ATR, KeltnerChannel), independence of every field an "
+                     "indicator is not documented to read (all 22, two streams differing exactly there), and DataItem (its own getter MIR) vs any other implementor; n<=3 (4), t=n+2; violations replayed natively.",
+                technique="symbolic execution of rustc MIR into z3 with an abstract bar type; native replay", design='4/C10'),
+    'C15': dict(text="Bounded model checking by solver with the real code on BOTH sides: each composite's next() and, in the same query, separately constructed public parts fed the same symbolic stream and "
+                     "combined as documented (BB vs SMA/SD, SlowStochastic vs EMA o FastStochastic, ATR vs EMA o TrueRange, MACD/PPO vs three EMAs, KC vs EMA/ATR, CE vs Min/Max/ATR, CCI vs SMA/MAD of the "
+                     "typical price); EMA periods symbolic for ATR/MACD/KC, n<=4 (5), t=2n+3, also with a reset of composite and parts mid-stream; violations replayed natively (parts wired through the replay binary).",
+                technique="symbolic execution of rustc MIR into z3 (composite vs hand-wired parts); native replay", design='4/C15'),
 }
 NA = {
     'C19': "decided by rustc's type checker once and for all; there is no input, state or schedule for an SMT/SAT solver to quantify over",
